@@ -31,13 +31,15 @@ DATA = {
     'n': None, 't': True, 'i': 7, 'z': 0, 'neg': -3, 'big': 10 ** 20, 'fl': 1.5, 'dec': Decimal('2.50'),
     's': 'abc', 'e': '', 'fmt': '{0.__class__}', 'dun': '__class__', 'pct': '%s %(x)s', 'attr': 'a.__globals__', 'bs': '\\1\\g<0>', 'rx': '(a)(b)?',
     'code': '__import__("os").system("id")', 'path': '/etc/passwd',
+    '%user%': {'name': 'bob', 'tags': ['a']}, '%v%': 'abc',
     'l': [1, 2, 3], 'ls': ['b', 'a', 'c'], 'le': [], 'nest': [[1, [2]], {'k': [3]}], 'tup': (1, 'a'), 'lt': [(1, 'a'), (2, 'b')],
     'd': {'a': 1, 'b': 2}, 'de': {}, 'dn': {'k': {'j': [1]}}, 'sl': slice(0, 2), 'mix': [None, True, 'x', 1.5, Decimal('1'), (), {}],
 }
 ALIASED = ['al']
 ARG_EXPR = list(DATA) + ['al', '(v => v)', '((a, b) => a)', '(v => [v, v])', '(() => 1)' if False else '(v => str)', 'str', 'len', 'dict', 'list', 'max', 'map', 'pretty',
                          '__getitem__', 'sorted', 'rand', '"__class__"', '"{0.__class__.__mro__}"', '0', '1', '-1', '2.5', '[]', '{}', '[dict]', '{"k": len}',
-                         'l[0:2]', 'None', 'True']
+                         'l[0:2]', 'None', 'True', '%user%', '%user.name%', '%user.name.upper%', '%user.__class__%', '%user.tags.0%', '%v.upper%', '%v.__class__.__mro__%',
+                         '%s.format%', '%l.0%', '%d.a%', '%l.__len__%', '%fmt.format%']
 
 
 def host_names():
@@ -77,7 +79,8 @@ def setup(ctx):
 def cases(ctx):
     rnd = ctx.rnd
     if ctx.shard == 0:
-        for src in ['dict[1]', '__getitem__(dict, "k")', 'x = dict[str]\nx', 'dict[::0]', '[dict][0][1]', 'f = dict[1]\nf()']:
+        for src in ['dict[1]', '__getitem__(dict, "k")', 'x = dict[str]\nx', 'dict[::0]', '[dict][0][1]', 'f = dict[1]\nf()', '%user.name.upper%', '%w% = 1\ng = %w.__class__.__base__%\ng',
+                    '%v.__class__%', '%l.0%', '%user.name%', 'x = %v.upper%\nx()']:
             yield ('src', src)
     # (1) builtin x arity x pool
     per = ctx.scale(60, 600)
@@ -119,7 +122,7 @@ def gram_source(ctx, seed):
     types = gram.gen('code', r, r.randint(2, 6))[:70]
     for _ in range(r.choice([0, 0, 1, 2])):
         types = gram.mutate(types, r, gram.ALPHA)
-    pools = {'NAME': ctx.fn_names + list(DATA) * 2 + ['x', 'y'], 'STRING': ['"__class__"', '"{0.__class__}"', '"a"', '"k"', "'%s'"],
+    pools = {'NAME': ctx.fn_names + list(DATA) * 2 + ['x', 'y', '%user.name%', '%v.upper%', '%user.__class__%', '%l.0%', '%x.real%', '%s.__doc__%'], 'STRING': ['"__class__"', '"{0.__class__}"', '"a"', '"k"', "'%s'"],
              'NUMBER': ['0', '1', '2', '10']}
     return gram.render(types, r, pools=pools)[1]
 
